@@ -43,12 +43,13 @@ CONC = {
     "C01": dict(families=["deploy", "rollout"], invs=["C01_a", "C01_b", "C01_c"], dinvs=["D_C01_a", "D_C01_b", "D_C01_c"]),
     "C02": dict(families=["deploy"], invs=["C02"], dinvs=["D_C02"]),
     "C03": dict(families=["deploy", "pause", "rollout"], invs=["C03_a", "C03_b", "C03_c"], dinvs=["D_C03_a", "D_C03_b", "D_C03_p"]),
+    "C05": dict(families=["own"], invs=["C05_a"], dinvs=[]),
     "C07": dict(families=["pause"], invs=["C07_a", "C07_b", "C07_c", "C07_d", "C07_e", "C07_f"], dinvs=["D_C07_a", "D_C07_b", "D_C07_f"]),
     "C08": dict(families=["pause"], invs=["C08", "C08_fwd"], dinvs=["D_C08", "D_C07_a"]),
     "C17": dict(families=["deploy", "pause", "rollout"], invs=["C17_a", "C17_b", "C17_c"], dinvs=["D_C17_c"]),
 }
 
-SIZES = {"quick": {"deploy": 160, "pause": 160, "rollout": 128}, "thorough": {"deploy": 4000, "pause": 4000, "rollout": 3000}}
+SIZES = {"quick": {"deploy": 160, "pause": 160, "rollout": 128, "own": 240}, "thorough": {"deploy": 4000, "pause": 4000, "rollout": 3000, "own": 4000}}
 SIMS = {"quick": 30, "thorough": 500}
 MC_TIMEOUT = {"quick": 240, "thorough": 1500}
 
@@ -200,7 +201,9 @@ def run_conc(prop, tier, seed, replay=None):
         out = os.path.dirname(v["trace"])
         pf = os.path.join(out, "plans", "%d.json" % v["scn"])
         plan = json.load(open(pf)) if os.path.exists(pf) else None
-        path = vlib.save_replay(prop, i, {"property": prop, "violation": {k: v[k] for k in v if k != "trace"}, "plan": plan})
+        observed = [json.loads(l) for l in open(v["trace"]) if '"scn":%d,' % v["scn"] in l][:600]
+        path = vlib.save_replay(prop, i, {"property": prop, "violation": {k: v[k] for k in v if k != "trace"}, "plan": plan,
+                                          "observed_trace": observed})
         print("VIOLATION property=%s replay=%s" % (prop, path))
         print("  %s subject=%s scenario=%s: %s" % (v["inv"], v["subj"], v["scn"], v["detail"]))
         rc = 1
@@ -245,9 +248,10 @@ def run_conc(prop, tier, seed, replay=None):
         "families": spec["families"],
         "exhaustive": False,
     }
-    vlib.write_evidence(prop, tier, seed, "model_checking", cov, time.time() - t0, len(unlisted),
-                        ["TLC/SANY", "testing/synctest virtual clock", "net.Pipe in-memory network", "harness recorder and fake targets",
-                         "bounded configurations of the design model (constants in spec/MC_*.cfg)"])
+    cov["_violations"] = len(unlisted)
+    cov["_assumptions"] = ["TLC/SANY", "testing/synctest virtual clock", "net.Pipe in-memory network", "harness recorder and fake targets",
+                           "bounded configurations of the design model (constants in spec/MC_*.cfg)"]
+    EVIDENCE.append(cov)
     if rc == 0 and drift:
         raise Inconclusive("model drift: the design model violates %s but the replayed schedule did not violate the property on the code" % drift)
     unreachable = [n for n in notes if n[0].endswith("-unreachable")]
@@ -265,7 +269,7 @@ SEQ = {
     "C05": dict(invs=["C05_b", "C05_a"], cov=["C05_b"], dinvs=["Inv_Ownership"]),
     "C16": dict(invs=["C16", "C16_cert", "C16_acme"], cov=["C16", "C16_cert"], dinvs=["Inv_Cert", "Inv_Decision"]),
 }
-SEQ_SIMS = {"quick": (60, 7), "thorough": (1500, 9)}   # (behaviours, depth)
+SEQ_SIMS = {"quick": (150, 8), "thorough": (2000, 10)}   # (behaviours, depth)
 
 
 def run_seq(prop, tier, seed, replay=None):
@@ -401,11 +405,37 @@ def run_seq(prop, tier, seed, replay=None):
         "events_recorded": dict(events), "samples": samples, "known_findings_printed": list(listed.keys()),
         "other_invariants_violated_this_run": dict(others), "exhaustive": all(m["verdict"] == "ok" for m in mc) and bool(mc),
     }
-    vlib.write_evidence(prop, tier, seed, "model_checking", cov, time.time() - t0, len(unlisted),
-                        ["TLC/SANY", "harness lexer for hosts and paths (well-formed inputs only)", "fake targets identify the serving service"])
+    cov["_violations"] = len(unlisted)
+    cov["_assumptions"] = ["TLC/SANY", "harness lexer for hosts and paths (well-formed inputs only)", "fake targets identify the serving service"]
+    EVIDENCE.append(cov)
     if nontrivial == 0 and not replay:
         raise Inconclusive("vacuous run for %s" % prop)
     return rc
+
+
+EVIDENCE = []
+
+
+def flush_evidence(prop, tier, seed, t0):
+    """One evidence file per property: the parts (sequential / concurrent) are merged."""
+    if not EVIDENCE:
+        return
+    if len(EVIDENCE) == 1:
+        cov = dict(EVIDENCE[0])
+    else:
+        cov = {"parts": []}
+        for k in ("states", "transitions", "traces_validated_against_impl", "evaluations", "distinct_nontrivial"):
+            cov[k] = sum(e.get(k, 0) for e in EVIDENCE)
+        cov["rule"] = " || ".join(e.get("rule", "") for e in EVIDENCE)
+        cov["samples"] = sum((e.get("samples", [])[:6] for e in EVIDENCE), [])
+        cov["exhaustive"] = False
+        cov["_violations"] = sum(e.get("_violations", 0) for e in EVIDENCE)
+        cov["_assumptions"] = sorted(set(sum((e.get("_assumptions", []) for e in EVIDENCE), [])))
+        for e in EVIDENCE:
+            cov["parts"].append({k: v for k, v in e.items() if k not in ("samples", "rule") and not k.startswith("_")})
+    viol = cov.pop("_violations", 0)
+    assumptions = cov.pop("_assumptions", [])
+    vlib.write_evidence(prop, tier, seed, "model_checking", cov, time.time() - t0, viol, assumptions)
 
 
 def main():
@@ -418,14 +448,21 @@ def main():
     if a.no_evidence:
         vlib.write_evidence = lambda *x, **k: None
     seed = int(os.environ.get("VERIF_SEED", "1"))
+    t0 = time.time()
     try:
-        if a.prop in CONC:
-            rc = run_conc(a.prop, a.tier, seed, a.replay)
-        elif a.prop in SEQ:
+        rc = None
+        kind = None
+        if a.replay:
+            kind = "seq" if "steps" in (json.load(open(a.replay)).get("plan") or {}) else "conc"
+        if a.prop in SEQ and kind in (None, "seq"):
             rc = run_seq(a.prop, a.tier, seed, a.replay)
-        else:
+        if a.prop in CONC and kind in (None, "conc"):
+            rc2 = run_conc(a.prop, a.tier, seed, a.replay)
+            rc = rc2 if rc is None else max(rc, rc2)
+        if rc is None:
             print("unknown property", a.prop)
             rc = 2
+        flush_evidence(a.prop, a.tier, seed, t0)
     except vlib.ProxyPanic as e:
         path = vlib.save_replay(a.prop, 0, {"property": a.prop, "violation": {"inv": "C18_panic", "detail": e.what}, "plan": e.plan})
         print("VIOLATION property=%s replay=%s" % (a.prop, path))
